@@ -28,6 +28,7 @@ Section Nodes.
     n_cread : list name;                   (* S: free variables the reaching local functions read (not declared nonlocal) *)
     n_cread_nl : list name;                (* S: ... that they declare nonlocal and read *)
     n_genk : list name;                    (* C06: keys of gen_map[node] *)
+    n_ltargets : list name;                (* node_scope.iterate_targets as recorded by activity (empty before the edge-sensitive repair) *)
     n_in : list A;
     n_out : list A;
     n_reads : list name;                   (* S *)
@@ -37,7 +38,7 @@ Section Nodes.
     n_body : label }.                      (* S: for header: entry node of the loop body (0 otherwise) *)
 
   Definition empty_node (l : label) : node :=
-    mknode l false empty_scope [] [] [] [] [] [] [] [] [] [] 0.
+    mknode l false empty_scope [] [] [] [] [] [] [] [] [] [] [] 0.
 
   Fixpoint find_node (ns : list node) (l : label) : node :=
     match ns with
@@ -51,7 +52,7 @@ Section Nodes.
 End Nodes.
 
 Arguments n_lab {A}. Arguments n_scoped {A}. Arguments n_scope {A}. Arguments n_fns {A}.
-Arguments n_cread {A}. Arguments n_cread_nl {A}. Arguments n_genk {A}. Arguments n_in {A}. Arguments n_out {A}.
+Arguments n_cread {A}. Arguments n_cread_nl {A}. Arguments n_genk {A}. Arguments n_ltargets {A}. Arguments n_in {A}. Arguments n_out {A}.
 Arguments n_reads {A}. Arguments n_writes {A}. Arguments n_dels {A}. Arguments n_ftarget {A}. Arguments n_body {A}.
 Arguments find_node {A}. Arguments mema {A}. Arguments incla {A}. Arguments seteq {A}. Arguments mknode {A}.
 
@@ -84,10 +85,14 @@ Record table : Set := mktable {
   t_gen_names : sx;             (* C06 *)
   t_ann : bool;                 (* include_annotations *)
   t_join_succ : bool;           (* the join ranges over node.next (liveness) / node.prev (reaching definitions) *)
-  t_join_in : bool }.           (* ... of self.in_ / self.out *)
+  t_join_in : bool;             (* ... of self.in_ / self.out *)
+  t_edge : bool }.              (* C06: the join uses _edge_out (for headers: exit edges carry in_ for the loop targets) *)
 
 (* ------------------------------------------------------------------------------------------ *)
 (* C07 liveness: items are names *)
+
+Definition dyn_kill {A : Type} (n : node A) (m : label) (x : name) : bool :=
+  memn x (n_writes n) || memn x (n_dels n) || (memn x (n_ftarget n) && Nat.eqb (n_body n) m).
 
 Definition lnode := node name.
 Definition kill_s (n : lnode) (x : name) : bool :=
@@ -103,8 +108,15 @@ Section Liveness.
     flat_map (fun m => if t_join_in T then n_in (nd m) else n_out (nd m))
              (if t_join_succ T then succs E (n_lab n) else preds E (n_lab n)).
 
+  (* the neighbours reached on loop-exit edges of a for header: all but the entry of the loop body *)
+  Definition lv_exit_list (n : lnode) : list name :=
+    flat_map (fun m => if t_join_in T then n_in (nd m) else n_out (nd m))
+             (filter (fun m => negb (Nat.eqb m (n_body n)))
+                     (if t_join_succ T then succs E (n_lab n) else preds E (n_lab n))).
+
   Definition lv_env (n : lnode) : env name :=
-    mkenv name (n_scope n) empty_scope (fun a => memn a (lv_join_list n)) (fun _ => false) (n_fns n) (t_ann T).
+    mkenv name (n_scope n) empty_scope (fun a => memn a (lv_join_list n)) (fun a => memn a (lv_exit_list n))
+          (n_ltargets n) (fun _ => false) (n_fns n) (t_ann T).
 
   Definition lv_universe (n : lnode) : list name :=
     lv_join_list n ++ n_in n ++ n_out n ++ scope_names (n_scope n) ++ flat_map (fun p => scope_names (snd p)) (n_fns n).
@@ -123,10 +135,13 @@ Section Liveness.
     forallb (fun n => if memn (n_lab n) R then lv_fix_node n else lv_untouched n) ns.
 
   (* inclusions soundness needs, for the Python-side gen / kill *)
-  Definition lv_sound_node (closure_nl : bool) (n : lnode) : bool :=
+  Definition lv_gen_node (closure_nl : bool) (n : lnode) : bool :=
     forallb (fun x => memn x (n_in n)) (n_reads n)
     && forallb (fun x => memn x (n_in n)) (n_cread n)
-    && (negb closure_nl || forallb (fun x => memn x (n_in n)) (n_cread_nl n))
+    && (negb closure_nl || forallb (fun x => memn x (n_in n)) (n_cread_nl n)).
+
+  Definition lv_sound_node (closure_nl : bool) (n : lnode) : bool :=
+    lv_gen_node closure_nl n
     && forallb (fun x => kill_s n x || memn x (n_in n)) (n_out n).
 
   Definition lv_sound_edges (R : list label) : bool :=
@@ -136,6 +151,18 @@ Section Liveness.
   Definition lv_sound (closure_nl : bool) (R : list label) : bool :=
     closed_bwd E R && negb (memn EXIT R) && forallb (fun l => memn l R) (exits E) && lv_sound_edges R
     && forallb (fun l => lv_sound_node closure_nl (nd l)) R.
+
+  (* edge-sensitive (unguarded) version: on the edge (n, m) node n kills what its instance followed by m
+     really rebinds: a for header binds its targets only towards the loop body *)
+  Definition lv_sound_e_edges (R : list label) : bool :=
+    forallb (fun e => negb (memn (snd e) R)
+                      || forallb (fun x => memn x (n_out (nd (fst e)))
+                                           && (dyn_kill (nd (fst e)) (snd e) x || memn x (n_in (nd (fst e)))))
+                                 (n_in (nd (snd e)))) E.
+
+  Definition lv_sound_e (closure_nl : bool) (R : list label) : bool :=
+    closed_bwd E R && negb (memn EXIT R) && forallb (fun l => memn l R) (exits E) && lv_sound_e_edges R
+    && forallb (fun l => lv_gen_node closure_nl (nd l)) R.
 End Liveness.
 
 (* annotations on statements *)
@@ -185,16 +212,24 @@ Section ReachDef.
   Variable ns : list rnode.
   Let nd := find_node ns.
 
+  (* _edge_out(p, n): out[p], except on an exit edge of a for header p (n is not the entry of its body), where
+     the loop targets carry the definitions of in_[p] instead of the header's own *)
+  Definition rd_edge_out (p : rnode) (n : label) : list ditem :=
+    if t_edge T && negb (match n_ltargets p with [] => true | _ => false end) && negb (Nat.eqb (n_body p) n)
+    then filter (fun a => negb (memn (fst a) (n_ltargets p))) (n_out p)
+         ++ filter (fun a => memn (fst a) (n_ltargets p)) (n_in p)
+    else n_out p.
+
   Definition rd_join_list (n : rnode) : list ditem :=
-    flat_map (fun m => if t_join_in T then n_in (nd m) else n_out (nd m))
+    flat_map (fun m => if t_join_in T then n_in (nd m) else rd_edge_out (nd m) (n_lab n))
              (if t_join_succ T then succs E (n_lab n) else preds E (n_lab n)).
 
   Definition rd_names_env (n : rnode) : env name :=
-    mkenv name (n_scope n) empty_scope (fun _ => false) (fun _ => false) [] (t_ann T).
+    mkenv name (n_scope n) empty_scope (fun _ => false) (fun _ => false) [] (fun _ => false) [] (t_ann T).
   Definition rd_gen_name (n : rnode) (x : name) : bool := ev name (fun x => x) (t_gen_names T) (rd_names_env n) x.
 
   Definition rd_env (n : rnode) : env ditem :=
-    mkenv ditem (n_scope n) empty_scope (fun a => memd a (rd_join_list n))
+    mkenv ditem (n_scope n) empty_scope (fun a => memd a (rd_join_list n)) (fun _ => false) (n_ltargets n)
           (fun a => Nat.eqb (snd a) (n_lab n) && memn (fst a) (n_genk n)) [] (t_ann T).
 
   Definition rd_universe (n : rnode) : list ditem :=
@@ -227,6 +262,18 @@ Section ReachDef.
   Definition rd_sound (entry : label) (R : list label) : bool :=
     closed_fwd E R && memn entry R && forallb (fun e => negb (Nat.eqb (fst e) EXIT)) E
     && rd_sound_edges R && forallb (fun l => rd_sound_node (nd l)) R.
+
+  (* edge-sensitive (unguarded) version, on the in sets: along the edge (n, m) node n contributes the
+     definitions its instance followed by m really makes and lets through what that instance does not rebind *)
+  Definition rd_sound_e_edges (R : list label) : bool :=
+    forallb (fun e => Nat.eqb (snd e) EXIT || negb (memn (fst e) R)
+                      || (forallb (fun x => memd (x, fst e) (n_in (nd (snd e))))
+                                  (n_writes (nd (fst e)) ++ (if Nat.eqb (n_body (nd (fst e))) (snd e) then n_ftarget (nd (fst e)) else []))
+                          && forallb (fun a => dyn_kill (nd (fst e)) (snd e) (fst a) || memd a (n_in (nd (snd e))))
+                                     (n_in (nd (fst e))))) E.
+
+  Definition rd_sound_e (entry : label) (R : list label) : bool :=
+    closed_fwd E R && memn entry R && forallb (fun e => negb (Nat.eqb (fst e) EXIT)) E && rd_sound_e_edges R.
 End ReachDef.
 
 (* annotations: DEFINITIONS on a Name of node `l`, DEFINED_VARS_IN of a compound statement *)
